@@ -27,7 +27,8 @@ RULE = ("cases = (DFA, retain_names) for minify(), plus minify=True paths of uni
         "symmetric difference/complement/to_partial/from_nfa; all DFAs with ≤2 states over {a,b} (quick) and ≤3 "
         "states over {a,b} incl. partial ones (thorough), then shaped random DFAs ≤7 states: unreachable states, "
         "dead states entered explicitly, dead/non-final initial state, empty/universal languages, duplicated "
-        "states, adversarial name pools (-1,-2,… / tuples / frozensets); non-trivial = source has ≥3 reachable "
+        "states, adversarial name pools (-1,-2,… / tuples / frozensets); sequences of 2–4 calls on ONE object (at least one "
+        "with minify=True, whose result is checked for language and minimality); non-trivial = source has ≥3 reachable "
         "states and minimisation merges or removes at least one of them; distinct = distinct encoded sources")
 ASSUMPTIONS = [
     "sources are valid DFAs built through the real constructor; no state is literally None",
@@ -172,8 +173,35 @@ def do_minify_via_op(ctx: Ctx, A: DFA, B: DFA, origin: str):
     ctx.case(("via", opname, retain, repr(A), repr(B)) if ok and len(R.states) >= 2 else None)
 
 
+@guarded
+def do_sequence(ctx: Ctx, d: DFA, b: DFA, steps, origin: str):
+    """Calls on ONE object: every minify=True result is evaluated for language AND minimality; the other
+    steps are executed (they are what may disturb per-object caches) and evaluated by C04."""
+    from harness import dfa_sequences
+
+    def on_dfa(what, srcs, spec, R, replay, minified):
+        if not minified:
+            return True
+        return check_min_props(ctx, what, srcs, spec, R, replay, d.input_symbols)
+    dfa_sequences.run_sequence(ctx, d, b, steps, origin, on_dfa)
+
+
+def run_sequences(ctx: Ctx, n: int):
+    from harness import dfa_sequences
+    rng = ctx.rng
+    for _ in range(n):
+        al = rng.choice(gen.ALPHABETS)
+        d = gen.rand_dfa(rng, 5, al, partial=False if rng.random() < 0.5 else None)
+        b = gen.rand_dfa(rng, 4, al)
+        steps = dfa_sequences.draw_steps(rng)
+        if not any(dfa_sequences.STEPS[s][3] for s in steps):
+            steps.append(rng.choice([s for s in dfa_sequences.STEP_NAMES if dfa_sequences.STEPS[s][3]]))
+        do_sequence(ctx, d, b, steps, "sequence_on_one_object")
+
+
 def run(ctx: Ctx):
     rng = ctx.rng
+    run_sequences(ctx, ctx.budget(500, 10000))
     # 0. corpus: triggers of repaired defects (F1, F19, F16 neighbourhood)
     for A in corpus():
         for retain in (False, True):
@@ -218,6 +246,7 @@ def search(ctx: Ctx):
         else:
             al = rng.choice(gen.ALPHABETS)
             do_minify_via_op(ctx, gen.rand_dfa(rng, 5, al), gen.rand_dfa(rng, 4, al), "search")
+            run_sequences(ctx, 1)
 
 
 def corpus():
@@ -242,7 +271,9 @@ def replay(ctx: Ctx, path: str) -> int:
     data = json.load(open(path))
     rp = data.get("replay", data)
     env = {"DFA": DFA, "frozenset": frozenset}
-    if rp.get("via"):
+    if rp.get("op") == "sequence":
+        do_sequence(ctx, eval(rp["A"], env), eval(rp["B"], env), rp["steps"], "replay")
+    elif rp.get("via"):
         print("replay: via-operation cases are replayed through C04's replay of the same operands")
         A = eval(rp["A"], env)
         from harness.ops.C04 import OPS
